@@ -125,6 +125,12 @@ func (w *zstdByteStreamWriter) Write(p []byte) (int, error) {
 		WriteOffset:  w.writeOffset,
 		Data:         p,
 	}); err != nil {
+		// Send() only reports io.EOF. The actual status is
+		// obtained by receiving the response.
+		w.cancel()
+		if _, recvErr := w.client.CloseAndRecv(); recvErr != nil {
+			return 0, recvErr
+		}
 		return 0, err
 	}
 	w.writeOffset += int64(len(p))
@@ -139,7 +145,9 @@ func (w *zstdByteStreamWriter) Close() error {
 		FinishWrite:  true,
 	}); err != nil {
 		w.cancel()
-		w.client.CloseAndRecv()
+		if _, recvErr := w.client.CloseAndRecv(); recvErr != nil {
+			return recvErr
+		}
 		return err
 	}
 	_, err := w.client.CloseAndRecv()
